@@ -10,8 +10,11 @@
         → some n=<k> consumed=<c> samples=<…> | none consumed=<c>
     @ mv <N> <k> mean=<…> cov=<…> src=<…> names=<samples>,<features> via=matrix|tensor [ty=rat]
         → some shape=<s>:<k>,<f>:<N> consumed=<c> values=<…> | none consumed=<c> | panic(explicit)
-    @ new matrix <meanRows> <meanCols> <covRows> <covCols>     → ok | panic(explicit)
-    @ new tensor <meanLen> <covRows> <covCols>                 → ok | err(<variant>)
+    @ approx <fp|rat> <data>                                   → mean=<…> variance=<…> | panic(explicit)
+    @ new matrix <meanRows> <meanCols> <covRows> <covCols>     → ok ## accessors=ok | panic(explicit)
+    @ new tensor <meanLen> <covRows> <covCols>                 → ok ## accessors=ok | err(<variant>) ## payload=ok display=ok
+      (after `##`: `mean()`/`covariance()` return what the constructor was given; the error carries
+      the rejected mean and covariance and its `Display` is the documented sentence)
 
   The answers of `draw` and `mv` are computed from the *specification* (`Spec/Gaussian.lean`) and
   from the code-shaped model (`Model/Gaussian.lean`); the two must coincide (theorems of
@@ -109,18 +112,31 @@ def step (s : State) (toks : List String) : State × String :=
         if mean.length ≠ n ∨ cov.length ≠ n * n then (s, "bad-op")
         else (s, answerMv toString n k mean cov src names)
       | _, _, _, _, _ => (s, "bad-op")
+  | ["@", "approx", ty, dataS] =>
+    if ty = "rat" then
+      match (splitComma dataS).mapM Driver.C08.parseRat with
+      | some data => (s, match approximating data with
+          | .ok (m, v) => s!"mean={showRat m} variance={showRat v}"
+          | .panic k => s!"panic({k})")
+      | none => (s, "bad-op")
+    else
+      match parseFps dataS with
+      | some data => (s, match approximating data with
+          | .ok (m, v) => s!"mean={m} variance={v}"
+          | .panic k => s!"panic({k})")
+      | none => (s, "bad-op")
   | ["@", "new", "matrix", a, b, c, d] =>
     match a.toNat?, b.toNat?, c.toNat?, d.toNat? with
     | some mr, some mc, some cr, some cc =>
-      (s, match mvNewMatrix mr mc cr cc with | .ok _ => "ok" | .panic k => s!"panic({k})")
+      (s, match mvNewMatrix mr mc cr cc with | .ok _ => "ok ## accessors=ok" | .panic k => s!"panic({k})")
     | _, _, _, _ => (s, "bad-op")
   | ["@", "new", "tensor", a, c, d] =>
     match a.toNat?, c.toNat?, d.toNat? with
     | some ml, some cr, some cc =>
       (s, match mvNewTensor ml cr cc with
-        | .ok _ => "ok"
-        | .error .notCovarianceMatrix => "err(NotCovarianceMatrix)"
-        | .error .meanVectorWrongLength => "err(MeanVectorWrongLength)")
+        | .ok _ => "ok ## accessors=ok"
+        | .error .notCovarianceMatrix => "err(NotCovarianceMatrix) ## payload=ok display=ok"
+        | .error .meanVectorWrongLength => "err(MeanVectorWrongLength) ## payload=ok display=ok")
     | _, _, _ => (s, "bad-op")
   | _ => (s, "bad-op")
 
